@@ -254,6 +254,10 @@ def run(ctx):
             # specific yield going negative inside the range of the recession curve itself
             sim.spline_params(rng, min(rec_levels), max(rec_levels) + 1.0, n_sy=rng.randint(6, 9), oscillating=True),
             sim.peatclsm_params(rng, max(tr.level))))
+        # a finely resolved profile: tens to more than a hundred knots (parameter numbers of two and three digits)
+        dataset_checks(ctx, tr, zstep, w, (
+            sim.spline_params(rng, min(tr.level), max(tr.level), n_sy=rng.choice([10, 12, 37, 101, 120]), n_t=rng.choice([10, 11, 25])),),
+            simulate=False)
         P.cleanup(w)
     if n_done[0] == 0:
         ctx.corr_break("six generated PEST files = model (Model/Pest.lean) line by line",
